@@ -49,7 +49,10 @@ type Prog struct {
 	Move  bool   `json:"move"`  // allocator moves the memory on every growth
 	// Mem: whose memory and of what kind: "" (defined here), "shared" (defined here, shared), "imported" (defined and
 	// exported by another module instantiated first), "imported-shared"
-	Mem  string `json:"mem,omitempty"`
+	Mem string `json:"mem,omitempty"`
+	// CFM: the runtime is configured WithMemoryCapacityFromMax(true) (a performance knob: the buffer's capacity is
+	// the maximum from the start); with a custom allocator the memory may still move on every growth
+	CFM  bool   `json:"cfm,omitempty"`
 	P    uint32 `json:"p"`
 	C    uint32 `json:"c"`
 	Body []Stmt `json:"body"`
